@@ -14,29 +14,53 @@ import (
 
 type BatchedPrivateIssuer struct {
 	tokenKey *oprf.PrivateKey
+	// Encodings taken once at construction. The key objects of the OPRF library compute and
+	// cache state on use, so every call works on its own copy of the key: an issuer holds
+	// only construction-time state and can be shared between goroutines.
+	tokenKeyEnc  []byte
+	publicKeyEnc []byte
 }
 
 func NewBatchedPrivateIssuer(key *oprf.PrivateKey) *BatchedPrivateIssuer {
-	return &BatchedPrivateIssuer{
-		tokenKey: key,
-	}
-}
-
-func (i *BatchedPrivateIssuer) TokenKey() *oprf.PublicKey {
-	return i.tokenKey.Public()
-}
-
-func (i *BatchedPrivateIssuer) TokenKeyID() []byte {
-	pkIEnc, err := i.tokenKey.Public().MarshalBinary()
+	tokenKeyEnc, err := key.MarshalBinary()
 	if err != nil {
 		panic(err)
 	}
-	keyID := sha256.Sum256(pkIEnc)
+	publicKeyEnc, err := key.Public().MarshalBinary()
+	if err != nil {
+		panic(err)
+	}
+	return &BatchedPrivateIssuer{
+		tokenKey:     key,
+		tokenKeyEnc:  tokenKeyEnc,
+		publicKeyEnc: publicKeyEnc,
+	}
+}
+
+// privateKey returns a copy of the token key for the exclusive use of one call.
+func (i *BatchedPrivateIssuer) privateKey() *oprf.PrivateKey {
+	key := new(oprf.PrivateKey)
+	if err := key.UnmarshalBinary(oprf.SuiteRistretto255, i.tokenKeyEnc); err != nil {
+		panic(err)
+	}
+	return key
+}
+
+func (i *BatchedPrivateIssuer) TokenKey() *oprf.PublicKey {
+	key := new(oprf.PublicKey)
+	if err := key.UnmarshalBinary(oprf.SuiteRistretto255, i.publicKeyEnc); err != nil {
+		panic(err)
+	}
+	return key
+}
+
+func (i *BatchedPrivateIssuer) TokenKeyID() []byte {
+	keyID := sha256.Sum256(i.publicKeyEnc)
 	return keyID[:]
 }
 
 func (i BatchedPrivateIssuer) Evaluate(req *BatchedPrivateTokenRequest) ([]byte, error) {
-	server := oprf.NewVerifiableServer(oprf.SuiteRistretto255, i.tokenKey)
+	server := oprf.NewVerifiableServer(oprf.SuiteRistretto255, i.privateKey())
 
 	elementLength := int(oprf.SuiteRistretto255.Group().Params().CompressedElementLength)
 	numRequests := len(req.BlindedReq)
@@ -98,7 +122,7 @@ func (i BatchedPrivateIssuer) Type() uint16 {
 }
 
 func (i BatchedPrivateIssuer) Verify(token tokens.Token) error {
-	server := oprf.NewVerifiableServer(oprf.SuiteRistretto255, i.tokenKey)
+	server := oprf.NewVerifiableServer(oprf.SuiteRistretto255, i.privateKey())
 
 	tokenInput := token.AuthenticatorInput()
 	output, err := server.FullEvaluate(tokenInput)
